@@ -9,7 +9,7 @@ reqs = re.findall(r'^(?:From SJ )?Require Import[^.]*(?:\.[A-Za-z][^.]*)*\.\s*$'
 reqs = [r.strip() for r in re.findall(r'^((?:From \w+ )?Require (?:Import|Export)? ?(?:.|\n)*?\.)\s*$', src, re.M)]
 print('\n'.join(reqs))
 print('From SJ Require Import Proofs.%s.' % mod)
-for sc in re.findall(r'^(?:Local )?Open Scope (string_scope|list_scope)\.', src, re.M):
+for sc in re.findall(r'^(?:Local )?Open Scope (string_scope|list_scope|N_scope|Z_scope|nat_scope)\.', src, re.M):
     print('Local Open Scope %s.' % sc)
 for a in sys.argv[2:]:
     n, _, new = a.partition('=')
